@@ -1,5 +1,5 @@
-\* exhaustive + emission (thorough): averaged cores of height 6, minimum sizes 1..4 half units
-CONSTANTS HC = 6  Mins = {1, 2, 3, 4}  Families = {"avg"}
+\* exhaustive + emission (thorough): three meshes averaged with an outlier, more reference / control variants; height 10
+CONSTANTS HC = 10  Mins = {3, 5}  Families = {"outlierAll"}
 INIT Init
 NEXT Next
 INVARIANT AtMostTwoRows
